@@ -123,7 +123,7 @@ class Position
     HashKey _zobrist_hash;
 
     int32_t _history_counter;
-    uint64_t _history[MAX_PLIES];
+    std::vector<uint64_t> _history;
 };
 
 std::ostream& operator<<(std::ostream& stream, const Position& position);
